@@ -33,6 +33,13 @@ CLAIMED = {
         design_ref="DESIGN.md §3.6",
         note="scipy.linalg.expm and dense tensordot are the reference; periodic chains run with cutoff 1e-13 under a sweep budget (bond doubling); on odd periodic chains only a decrease of the error is demanded, as the property states.",
     ),
+    "C08": dict(
+        category="exploration",
+        technique="deterministic simulation: seeded history search threading one canonical-centre record (and suspended sampler generators) through every record-taking MPS operation, per-step isometry-defect monitor + dense state model + dense-defined values of every canonical-form query; shrunk, replayable traces",
+        text="One MPS (L 2-6, site-dependent physical dims, real/complex, optionally unnormalised) and one info dict handed to canonicalize / shift / compress_site / gates in every MPS mode (incl. non-unitary operators, reversed and non-adjacent sites, swap_back=False) / swaps with every absorb / sub-MPO / measure / all canonical readers / sample generators suspended across other operations, in info=, cur_orthog= or omitted spelling, plain or in-place. After every step: record soundness from independently computed isometry defects, left_inds flags, dense state vs model, reader values vs dense. Rejected calls must leave state untouched. Sampling: evidence, not proof.",
+        design_ref="DESIGN.md §3.5",
+        note="Generic-path gates neither read nor write the record: the simulated user resets it after them unless the gate is a single-site unitary; all compressions use cutoff=0; no fault kinds exist in this sequential code besides rejected calls and abandoned generators.",
+    ),
 }
 
 NOT_APPLICABLE = {
